@@ -117,6 +117,7 @@ def run(ch, tier):
     ops = ch.s('ops')
     n = ops.int(3, 40 if tier == 'quick' else 60)
     fresh = [0]
+    graveyard = []
     hist = []
     ok_edits = rejected = 0
     for _ in range(n):
@@ -136,6 +137,9 @@ def run(ch, tier):
             kind = ops.pick(['basic', 'compound', 'orthogonal', 'final', 'shallow', 'deep'])
             if names and ops.flag(1, 6):
                 nm = ops.pick(names)             # collision
+            elif [g for g in graveyard if g not in m.st] and ops.flag(1, 3):
+                nm = ops.pick([g for g in graveyard if g not in m.st])    # a name that was renamed away or removed earlier
+                res.stats['freed_name_reused'] += 1
             else:
                 fresh[0] += 1
                 nm = 'n%d' % fresh[0]
@@ -180,6 +184,9 @@ def run(ch, tier):
             old = pick_name()
             if names and ops.flag(1, 5):
                 new = ops.pick(names)
+            elif [g for g in graveyard if g not in m.st] and ops.flag(1, 3):
+                new = ops.pick([g for g in graveyard if g not in m.st])
+                res.stats['freed_name_reused'] += 1
             else:
                 fresh[0] += 1
                 new = 'r%d' % fresh[0]
@@ -318,7 +325,9 @@ def run(ch, tier):
         else:
             if expect_err is not None:
                 return res.fail('invalid-edit-accepted', '%r succeeded although %s' % (desc, expect_err), **ctx)
+            before_names = set(m.st)
             apply_model()
+            graveyard.extend(sorted(before_names - set(m.st)))
             ok_edits += 1
             res.stats['ok_' + op] += 1
         why = compare(sc, m)
